@@ -57,6 +57,38 @@ def rand_tens(r, n):
     return [[[[r.choice([0, 0, 1, -1, 2]) for _ in range(n)] for _ in range(n)] for _ in range(n)] for _ in range(n)]
 
 
+NT = 2      # time points of evolutions / time-dependent tensors
+# object kinds: class under test -> shape of its data
+#   op Operator, sa SelfAdjointOperator (context operators), sup SuperOperator                       (round 1)
+#   ham Hamiltonian, rdm ReducedDensityMatrix, tdm TransitionDipoleMoment (n,n,3), rt RelaxationTensor (4 index),
+#   rt5 RelaxationTensor (time,4 index), tdrt TDRedfieldRelaxationTensor (tensor form), dme DensityMatrixEvolution (time,n,n),
+#   sve StateVectorEvolution (time,n)
+MAT_KINDS = ("op", "sa", "ham", "rdm")
+KIND_POOL = ["op", "op", "sa", "sup", "ham", "rdm", "tdm", "rt", "rt5", "tdrt", "dme", "sve"]
+TOP_ONLY = ("dme", "sve")        # their constructors do not tag the object with the current basis: created outside contexts only
+
+
+def rand_data(r, n, kind):
+    if kind == "sa":
+        return conj_diag(r, n)
+    if kind in ("ham", "rdm"):
+        return rand_mat(r, n, herm=True)
+    if kind == "op":
+        return rand_mat(r, n)
+    if kind in ("sup", "rt"):
+        return rand_tens(r, n)
+    if kind in ("rt5", "tdrt"):
+        return [rand_tens(r, n) for _ in range(NT)]
+    if kind == "dme":
+        return [rand_mat(r, n) for _ in range(NT)]
+    if kind == "sve":
+        return [[r.randint(-3, 3) for _ in range(n)] for _ in range(NT)]
+    if kind == "tdm":
+        comps = [rand_mat(r, n, herm=True) for _ in range(3)]
+        return [[[comps[k][i][j] for k in range(3)] for j in range(n)] for i in range(n)]     # (n,n,3)
+    raise ValueError(kind)
+
+
 class Gen:
     def __init__(self, r, n):
         self.r, self.n = r, n
@@ -67,8 +99,7 @@ class Gen:
         i = self.next
         self.next += 1
         self.kinds[i] = kind
-        data = conj_diag(self.r, self.n) if kind == "sa" else (rand_tens(self.r, self.n) if kind == "sup" else rand_mat(self.r, self.n))
-        return ["new", i, kind, data]
+        return ["new", i, kind, rand_data(self.r, self.n, kind)]
 
     def pick(self, kind=None):
         ids = [i for i, k in self.kinds.items() if kind is None or k == kind]
@@ -78,18 +109,19 @@ class Gen:
         r = self.r
         u = r.random()
         if u < 0.14 or not self.kinds:
-            return self.new(r.choice(["op", "op", "sa", "sup"]))
+            k_ = r.choice(KIND_POOL)
+            if nest > 0 and k_ in TOP_ONLY:
+                k_ = "op"
+            return self.new(k_)
         if u < 0.42:
             return ["read", self.pick()]
         if u < 0.50:
             i = self.pick()
-            k = self.kinds[i]
-            data = conj_diag(r, self.n) if k == "sa" else (rand_tens(r, self.n) if k == "sup" else rand_mat(r, self.n))
-            return ["write", i, data]
+            return ["write", i, rand_data(r, self.n, self.kinds[i])]
         if u < 0.56:
             return ["protect", self.pick(), r.random() < 0.6]
         if u < 0.66:
-            sup, src = self.pick("sup"), self.pick("op")
+            sup, src = self.pick(r.choice(["sup", "sup", "rt"])), self.pick("op")
             if sup is None or src is None:
                 return ["read", self.pick()]
             dst = self.next
@@ -101,6 +133,8 @@ class Gen:
             if opi is None:
                 return self.new("sa")
             body = [["read", opi]] if r.random() < 0.6 else []
+            # most contexts look at some existing objects right away (that is what a context is entered for)
+            body += [["read", self.pick()] for _ in range(r.choice([0, 1, 2, 2]))]
             body += [self.stmt(depth - 1, nest + 1) for _ in range(r.randint(1, 4))]
             return ["with", opi, body]
         if u < 0.91:
@@ -111,9 +145,11 @@ class Gen:
 
 
 def gen_case(r, k):
-    n = r.choice([2, 2, 3])
+    n = r.choice([2, 3, 3, 3])
     g = Gen(r, n)
-    prog = [g.new("sa"), g.new("op"), g.new("sup") if r.random() < 0.6 else g.new("op")]
+    prog = [g.new("sa"), g.new("op"), g.new("sup") if r.random() < 0.4 else g.new(r.choice(KIND_POOL[4:]))]
+    if r.random() < 0.7:
+        prog.append(g.new(r.choice(KIND_POOL[4:])))
     prog += [g.stmt(3, 0) for _ in range(r.randint(2, 8))]
     return {"n": n, "prog": prog}
 
@@ -126,10 +162,47 @@ class Runner:
         self.np, self.qr, self.n = numpy, qr, n
         self.m = qr.Manager()
         self.objs = {}
+        self.kind_of = {}
         self.orig = {}         # label -> original data if never written/protected/applied-into
         self.reads = []
         self.S = {}            # id(with statement) -> (diagonaliser (oracle output), monitor read done?)
         self.problems = []
+
+    def make(self, kind, arr):
+        np, qr = self.np, self.qr
+        if kind == "ham":
+            return qr.Hamiltonian(data=arr)
+        if kind == "rdm":
+            return qr.ReducedDensityMatrix(data=arr)
+        if kind == "tdm":
+            from quantarhei.qm.hilbertspace.dmoment import TransitionDipoleMoment
+            return TransitionDipoleMoment(data=arr)
+        if kind in ("rt", "rt5"):
+            from quantarhei.qm.liouvillespace.relaxationtensor import RelaxationTensor
+            o = RelaxationTensor()
+            o.dim = self.n
+            o.data = arr
+            return o
+        if kind == "tdrt":
+            from quantarhei.qm.liouvillespace.tdredfieldtensor import TDRedfieldRelaxationTensor
+            o = TDRedfieldRelaxationTensor.__new__(TDRedfieldRelaxationTensor)
+            o._initialize_basis()
+            o.dim, o.as_operators, o.name, o.Nt = self.n, False, "", arr.shape[0]
+            o._data_initialized = True
+            o.data = arr
+            return o
+        ta = qr.TimeAxis(0.0, arr.shape[0], 1.0)
+        if kind == "dme":
+            from quantarhei.qm.propagators.dmevolution import DensityMatrixEvolution
+            o = DensityMatrixEvolution(ta, qr.ReducedDensityMatrix(dim=self.n))
+            o.data = arr
+            return o
+        if kind == "sve":
+            from quantarhei.qm.propagators.statevectorevolution import StateVectorEvolution
+            o = StateVectorEvolution(ta, qr.StateVector(data=arr[0].copy()))
+            o.data = arr
+            return o
+        raise ValueError(kind)
 
     def label_of(self, o):
         for i, x in self.objs.items():
@@ -152,8 +225,10 @@ class Runner:
         k = s[0]
         if k == "new":
             _, i, kind, data = s
-            arr = np.array(data, dtype=complex if kind != "sa" else float)
-            if kind == "sa":
+            arr = np.array(data, dtype=complex if kind not in ("sa", "ham", "tdm") else float)
+            if kind in ("ham", "rdm", "tdm", "rt", "rt5", "tdrt", "dme", "sve"):
+                o = self.make(kind, arr)
+            elif kind == "sa":
                 o = qr.qm.SelfAdjointOperator(data=arr) if hasattr(qr.qm, "SelfAdjointOperator") else None
                 if o is None:
                     from quantarhei.qm.hilbertspace.operators import SelfAdjointOperator
@@ -165,18 +240,19 @@ class Runner:
                 from quantarhei.qm.hilbertspace.operators import Operator
                 o = Operator(data=arr)
             self.objs[i] = o
+            self.kind_of[i] = kind
             if self.m.get_current_basis() == 0:
                 self.orig[i] = np.array(data, dtype=complex)
         elif k == "read":
             o = self.objs[s[1]]
             v = np.array(o.data)
             self.reads.append((s[1], v))
-            if s[1] in self.orig and v.ndim == 2 and not o.is_basis_protected:
+            if s[1] in self.orig and v.ndim == 2 and self.kind_of.get(s[1]) in MAT_KINDS and not o.is_basis_protected:
                 if abs(np.trace(v) - np.trace(self.orig[s[1]])) > 1e-12:
                     self.problems.append(("trace", "trace of object %d read inside a context differs from outside" % s[1]))
         elif k == "write":
             self.orig.pop(s[1], None)
-            self.objs[s[1]].data = np.array(s[2], dtype=complex)
+            self.objs[s[1]].data = np.array(s[2], dtype=float if self.kind_of.get(s[1]) in ("sa", "ham", "tdm") else complex)
         elif k == "protect":
             self.orig.pop(s[1], None)
             if s[2]:
@@ -186,6 +262,7 @@ class Runner:
         elif k == "apply":
             _, sup, src, dst = s
             self.objs[dst] = self.objs[sup].apply(self.objs[src])
+            self.kind_of[dst] = 'op'
         elif k == "with":
             _, opi, body = s
             op = self.objs[opi]
@@ -231,22 +308,47 @@ def ints(a):
     return a.real.astype(int)
 
 
-def obs_lit(a):
-    a = ints(a)
-    if a.ndim == 2:
-        return "(OM %s)" % cm.clist([cm.clist([cm.zlit(x) for x in row]) for row in a])
-    return "(OT %s)" % cm.clist([cm.clist([cm.clist([cm.clist([cm.zlit(x) for x in r3]) for r3 in r2]) for r2 in r1]) for r1 in a])
+def zl(a):
+    """nested Coq list of Z literals of an integer array of any rank"""
+    if a.ndim == 1:
+        return cm.clist([cm.zlit(x) for x in a])
+    return cm.clist([zl(x) for x in a])
+
+
+def shape_of(kind, a):
+    """(constructor suffix, array arranged as the model wants it)"""
+    import numpy
+    if kind == "tdm":
+        return "ML", numpy.transpose(a, (2, 0, 1))        # three components, each an (n,n) matrix
+    if kind == "dme":
+        return "ML", a
+    if kind == "sve":
+        return "VL", a
+    if kind in ("rt5", "tdrt"):
+        return "TL", a
+    return ("M" if a.ndim == 2 else "T"), a
+
+
+def obs_lit(a, kind=None):
+    tag, a = shape_of(kind, ints(a))
+    return "(O%s %s)" % (tag, zl(a))
 
 
 def x_lit(kind, data):
     import numpy
-    a = numpy.array(data)
-    if a.ndim == 2:
-        return "(XM (mat_of (R:=ZR) %s))" % cm.clist([cm.clist([cm.zlit(x) for x in row]) for row in a])
-    return "(XT (tens_of (R:=ZR) %s))" % cm.clist([cm.clist([cm.clist([cm.clist([cm.zlit(x) for x in r3]) for r3 in r2]) for r2 in r1]) for r1 in a])
+    tag, a = shape_of(kind, numpy.array(data))
+    if tag == "M":
+        return "(XM (mat_of (R:=ZR) %s))" % zl(a)
+    if tag == "T":
+        return "(XT (tens_of (R:=ZR) %s))" % zl(a)
+    if tag == "ML":
+        return "(XML %s)" % cm.clist(["(mat_of (R:=ZR) %s)" % zl(m_) for m_ in a])
+    if tag == "TL":
+        return "(XTL %s)" % cm.clist(["(tens_of (R:=ZR) %s)" % zl(t_) for t_ in a])
+    return "(XVL %s)" % cm.clist(["(vec_of (R:=ZR) %s)" % zl(v_) for v_ in a])
 
 
-def coq_prog(stmts, Sq, variant):
+def coq_prog(stmts, Sq, variant, kinds):
     """translates a statement list; Sq is the queue of observed diagonalisers (consumed in enter order)"""
     out = "PSkip _ _"
     parts = []
@@ -257,7 +359,7 @@ def coq_prog(stmts, Sq, variant):
         elif k == "read":
             parts.append("PRead _ _ %d%%nat" % s[1])
         elif k == "write":
-            parts.append("PWrite _ _ %d%%nat %s" % (s[1], x_lit(None, s[2])))
+            parts.append("PWrite _ _ %d%%nat %s" % (s[1], x_lit(kinds.get(s[1]), s[2])))
         elif k == "protect":
             parts.append("PProtect _ _ %d%%nat %s" % (s[1], "true" if s[2] else "false"))
         elif k == "apply":
@@ -268,17 +370,32 @@ def coq_prog(stmts, Sq, variant):
                 smat = "(mat_of (R:=ZR) %s)" % cm.clist([cm.clist([cm.zlit(int(x)) for x in row]) for row in S])
             else:
                 smat, monitored = "(@mid ZR)", False       # never entered in the implementation (an exception came first)
-            body = coq_prog(s[2], Sq, variant)
+            body = coq_prog(s[2], Sq, variant, kinds)
             if monitored:
                 body = "(PSeq _ _ (PRead _ _ %d%%nat) %s)" % (s[1], body)
             parts.append("PWith _ _ %d%%nat %s %s" % (s[1], smat, body))
         elif k == "raise":
             parts.append("PRaise _ _")
         elif k == "try":
-            parts.append("PTry _ _ %s" % coq_prog(s[1], Sq, variant))
+            parts.append("PTry _ _ %s" % coq_prog(s[1], Sq, variant, kinds))
     for p in reversed(parts):
         out = "(PSeq _ _ (%s) %s)" % (p, out) if out != "PSkip _ _" else "(%s)" % p
     return out
+
+
+def kinds_of_prog(stmts, acc=None):
+    """label -> kind over the whole program text (labels are never re-used for another kind; apply results are operators)"""
+    acc = {} if acc is None else acc
+    for s in stmts:
+        if s[0] == "new":
+            acc[s[1]] = s[2]
+        elif s[0] == "apply":
+            acc.setdefault(s[3], "op")
+        elif s[0] == "with":
+            kinds_of_prog(s[2], acc)
+        elif s[0] == "try":
+            kinds_of_prog(s[1], acc)
+    return acc
 
 
 def reset_manager():
@@ -343,13 +460,13 @@ def run(chk, cases):
             objs_l = []
             for i, o in sorted(rn.objs.items()):
                 objs_l.append("(%d%%nat, %d%%nat, %s, %s)" % (i, o.get_current_basis(), "true" if o.is_basis_protected else "false",
-                                                             obs_lit(o._data)))
-            reads_l = ["(%d%%nat, %s)" % (i, obs_lit(v)) for (i, v) in rn.reads]
+                                                             obs_lit(o._data, rn.kind_of.get(i, "op"))))
+            reads_l = ["(%d%%nat, %s)" % (i, obs_lit(v, rn.kind_of.get(i, "op"))) for (i, v) in rn.reads]
         except ValueError:
             chk.count("skipped:non-integer")
             continue
         Sq = rn.S
-        body = coq_prog(c["prog"], Sq, "VARIANT")
+        body = coq_prog(c["prog"], Sq, "VARIANT", kinds_of_prog(c["prog"]))
         regs = [m.basis_registered[k] for k in sorted(m.basis_registered, reverse=True)]
         regs_l = cm.clist([cm.clist(["%d%%nat" % rn.label_of(o) for o in lst]) for lst in regs])
         items.append("(%d%%nat, %s, %s, %s, %s, %s, %d%%nat)" % (c["n"], body, "true" if raised else "false", cm.clist(reads_l),
@@ -357,6 +474,8 @@ def run(chk, cases):
         meta.append(c)
         txt = json.dumps(c["prog"])
         chk.count("raised" if raised else "normal")
+        for kd in sorted(set(kinds_of_prog(c["prog"]).values())):
+            chk.count("class:" + kd)
         chk.count("nesting:%d" % max([0] + [txt[:k].count('["with"') for k in range(0, len(txt), 50)]))
         chk.case(txt, '"with"' in txt and ('"read"' in txt), sample={"n": c["n"], "prog": c["prog"][:5]})
     reset_manager()
